@@ -19,9 +19,11 @@ package args
 //@
 //@ // ---- C20: read-only operations write nothing that existed before the call -------------------------
 //@ func (*Args).GetNode
+//@   inline
 //@   requires a != nil
 //@   assigns [C20] nothing
 //@ func (*Args).Iter
+//@   inline
 //@   requires a != nil
 //@   assigns [C20] nothing
 //@ func (*Args).Iter$1
@@ -45,6 +47,7 @@ package args
 //@   loop 0: invariant 0 <= k && k <= len(keys)
 //@           decreases len(keys) - k
 //@ func (*Args).ReadOnly
+//@   inline
 //@   assigns [C20] nothing
 //@ func (*Args).Clone
 //@   requires a != nil
